@@ -9,8 +9,20 @@ Inductive outcome := ONone | OVal (v : Z) | OExc (e : Z).
 (* the awaiter slot: a LIFO chain of waiter ids (head first) or the `disabled` (= ready) marker *)
 Inductive slotv := SChain (l : list nat) | SReady.
 
-Inductive rkind := KVal (v : Z) | KExc (e : Z) | KDrop | KMove | KDtor.
-Inductive wkind := WCoro | WBlock | WCallback | WHasValue.
+(* resolver kinds: promise(v) / promise(exception) / promise(drop) / move-then-destroy / ~promise of the shared object /
+   completion of an async<T> coroutine started with async::start(promise&): `co_return v` resp. a thrown exception
+   (async.h:142-150 start_promise claims, :240-245 return_value/unhandled_exception set the payload,
+   :217-230 final_awaiter resolves, destroys the frame, then transfers to the collected coroutines) *)
+Inductive rkind := KVal (v : Z) | KExc (e : Z) | KDrop | KMove | KDtor | KAsyncV (v : Z) | KAsyncE (e : Z).
+(* waiter kinds: coroutine `co_await f` / thread in f.sync()+value() (= wait()) / callback awaiter (await_suspend(fn,ctx)) /
+   thread in `bool(f.has_value())` / coroutine `co_await f.has_value()` (future.h:470-480 awaitable_bool) *)
+Inductive wkind := WCoro | WBlock | WCallback | WHasValue | WCoroHas.
+
+(* ghost access log of the awaiter nodes (C02): the walker reads / clears a node's _next and calls its resume();
+   EFree w = the storage of w's awaiter is released (stack sync_awaiter leaves scope, coroutine temporary dies,
+   the callback context deletes itself); EFrame r = the async resolver's coroutine frame is destroyed, r = the
+   future was ready at that moment *)
+Inductive ev := ENext (w : nat) | EClear (w : nat) | EResume (w : nat) | EFree (w : nat) | EFrame (rdy : bool).
 
 Inductive rpc :=
 | RClaim                       (* at "claim": exchange of promise::_owner *)
@@ -40,11 +52,16 @@ Record st := mkSt {
   (* ghost history, not read by any step *)
   winner : option nat;
   sublog : list nat;                 (* successful subscriptions *)
-  wlog : list (nat * outcome)        (* releases: waiter, payload visible at that moment *)
+  wlog : list (nat * outcome);       (* releases: waiter, payload visible at that moment *)
+  elog : list ev                     (* node accesses / releases / frees in program order of the steps *)
 }.
 
 Definition set_thr (s : st) (i : nat) (t : thr) : st :=
-  mkSt (owner s) (slot s) (payload s) (walk s) (acc s) (set_nth (thrs s) i t) (winner s) (sublog s) (wlog s).
+  mkSt (owner s) (slot s) (payload s) (walk s) (acc s) (set_nth (thrs s) i t) (winner s) (sublog s) (wlog s) (elog s).
+
+Definition is_coro (k : wkind) : bool := match k with WCoro | WCoroHas => true | _ => false end.
+Definition is_async (k : rkind) : bool := match k with KAsyncV _ | KAsyncE _ => true | _ => false end.
+Definition slot_ready (s : st) : bool := match slot s with SReady => true | _ => false end.
 
 Definition head (l : list nat) : option nat := match l with [] => None | x :: _ => Some x end.
 Definition onat_eqb (a b : option nat) : bool :=
@@ -71,23 +88,29 @@ Definition enabled (s : st) (i : nat) : bool :=
   end.
 
 Definition payload_of (k : rkind) (old : outcome) : outcome :=
-  match k with KVal v => OVal v | KExc e => OExc e | _ => old end.
+  match k with KVal v => OVal v | KExc e => OExc e | KAsyncV v => OVal v | KAsyncE e => OExc e | _ => old end.
 
-(* release one parked waiter w (resolver side): coroutine handles are collected, the others run now *)
+(* release one parked waiter w (resolver side), awaiter.h:104-110: y = chain; chain = y->_next; y->_next = nullptr;
+   ret << y->resume().  Coroutine handles are collected in the suspend point, the others run now:
+   the callback runs (and, in the harness scenario, deletes its own context incl. the awaiter),
+   sync_awaiter::wakeup sets the flag (awaiter.h:276-279) *)
 Definition release_node (s : st) (w : nat) : st :=
+  let lg := elog s ++ [ENext w; EClear w; EResume w] in
   match nth_error (thrs s) w with
   | Some (TW WCoro pc f) =>
-      mkSt (owner s) (slot s) (payload s) (walk s) (acc s ++ [w]) (thrs s) (winner s) (sublog s) (wlog s)
+      mkSt (owner s) (slot s) (payload s) (walk s) (acc s ++ [w]) (thrs s) (winner s) (sublog s) (wlog s) lg
+  | Some (TW WCoroHas pc f) =>
+      mkSt (owner s) (slot s) (payload s) (walk s) (acc s ++ [w]) (thrs s) (winner s) (sublog s) (wlog s) lg
   | Some (TW WCallback pc f) =>
       mkSt (owner s) (slot s) (payload s) (walk s) (acc s) (set_nth (thrs s) w (TW WCallback (WDone (payload s)) f))
-           (winner s) (sublog s) (wlog s ++ [(w, payload s)])
+           (winner s) (sublog s) (wlog s ++ [(w, payload s)]) (lg ++ [EFree w])
   | Some (TW k pc f) =>   (* sync_awaiter: set the flag *)
       mkSt (owner s) (slot s) (payload s) (walk s) (acc s) (set_nth (thrs s) w (TW k pc true))
-           (winner s) (sublog s) (wlog s ++ [(w, payload s)])
+           (winner s) (sublog s) (wlog s ++ [(w, payload s)]) lg
   | _ => s
   end.
 
-(* the suspend point returned by resolve() is discarded: collected coroutines run now, in order *)
+(* the collected coroutines run, in the given order; each reads the result (await_resume) and its awaiter dies *)
 Fixpoint resume_all (s : st) (l : list nat) : st :=
   match l with
   | [] => s
@@ -96,15 +119,24 @@ Fixpoint resume_all (s : st) (l : list nat) : st :=
                 | Some (TW k pc f) =>
                     mkSt (owner s) (slot s) (payload s) (walk s) (acc s)
                          (set_nth (thrs s) c (TW k (WDone (payload s)) f)) (winner s) (sublog s)
-                         (wlog s ++ [(c, payload s)])
+                         (wlog s ++ [(c, payload s)]) (elog s ++ [EFree c])
                 | _ => s
                 end in
       resume_all s1 t
   end.
 
+(* order in which the collected handles h1..hn run.  A plain resolver discards the suspend point: suspend_now
+   resumes h1..hn in order (suspend_point.h:80-95).  The async final_awaiter does `return sp.pop()` (async.h:229):
+   hn is resumed by symmetric transfer, ~suspend_point queues h1..h(n-1) which run afterwards. *)
+Definition rot_last (l : list nat) : list nat := match rev l with [] => [] | x :: r => x :: rev r end.
+
 Definition finish (s : st) (i : nat) (k : rkind) : st :=
-  let s1 := resume_all s (acc s) in
-  set_thr (mkSt (owner s1) (slot s1) (payload s1) (walk s1) [] (thrs s1) (winner s1) (sublog s1) (wlog s1))
+  let s0 := if is_async k
+            then mkSt (owner s) (slot s) (payload s) (walk s) (acc s) (thrs s) (winner s) (sublog s) (wlog s)
+                      (elog s ++ [EFrame (slot_ready s)])     (* me.destroy(), async.h:227 *)
+            else s in
+  let s1 := resume_all s0 (if is_async k then rot_last (acc s) else acc s) in
+  set_thr (mkSt (owner s1) (slot s1) (payload s1) (walk s1) [] (thrs s1) (winner s1) (sublog s1) (wlog s1) (elog s1))
           i (TR k (RDone true)).
 
 (* one step of thread i; returns the new state and the code of the point the thread was pending at *)
@@ -112,7 +144,7 @@ Definition tstep (s : st) (i : nat) : st * Z :=
   match nth_error (thrs s) i with
   | Some (TR k RClaim) =>
       if owner s then
-        (set_thr (mkSt false (slot s) (payload_of k (payload s)) (walk s) (acc s) (thrs s) (Some i) (sublog s) (wlog s))
+        (set_thr (mkSt false (slot s) (payload_of k (payload s)) (walk s) (acc s) (thrs s) (Some i) (sublog s) (wlog s) (elog s))
                  i (TR k (match k with KMove => RDtor (Some true) | _ => RResolve end)), 1)
       else (set_thr s i (TR k (match k with KMove => RDtor (Some false) | _ => RDone false end)), 1)
   | Some (TR k RXWait) => (set_thr s i (TR k (RDtor None)), 9)
@@ -120,17 +152,17 @@ Definition tstep (s : st) (i : nat) : st * Z :=
   | Some (TR k (RDtor None)) =>
       if owner s then
         (* only a KDtor thread ever reaches this pc, and payload_of KDtor is the identity *)
-        (set_thr (mkSt false (slot s) (payload_of k (payload s)) (walk s) (acc s) (thrs s) (Some i) (sublog s) (wlog s)) i (TR k RResolve), 2)
+        (set_thr (mkSt false (slot s) (payload_of k (payload s)) (walk s) (acc s) (thrs s) (Some i) (sublog s) (wlog s) (elog s)) i (TR k RResolve), 2)
       else (set_thr s i (TR k (RDone false)), 2)
   | Some (TR k RResolve) =>
       let l := match slot s with SChain l => l | SReady => [] end in
-      let s1 := mkSt (owner s) SReady (payload s) l (acc s) (thrs s) (winner s) (sublog s) (wlog s) in
+      let s1 := mkSt (owner s) SReady (payload s) l (acc s) (thrs s) (winner s) (sublog s) (wlog s) (elog s) in
       (match l with [] => finish s1 i k | _ => set_thr s1 i (TR k RWalk) end, 3)
   | Some (TR k RWalk) =>
       match walk s with
       | [] => (finish s i k, 4)
       | w :: t =>
-          let s1 := release_node (mkSt (owner s) (slot s) (payload s) t (acc s) (thrs s) (winner s) (sublog s) (wlog s)) w in
+          let s1 := release_node (mkSt (owner s) (slot s) (payload s) t (acc s) (thrs s) (winner s) (sublog s) (wlog s) (elog s)) w in
           (match t with [] => finish s1 i k | _ => s1 end, 4)
       end
   | Some (TR k (RDone _)) => (s, 0)
@@ -150,11 +182,13 @@ Definition tstep (s : st) (i : nat) : st * Z :=
        | SChain l =>
            if onat_eqb (head l) e then
              set_thr (mkSt (owner s) (SChain (i :: l)) (payload s) (walk s) (acc s) (thrs s) (winner s)
-                           (sublog s ++ [i]) (wlog s))
-                     i (TW k (match k with WCoro | WCallback => WParked | _ => WFlag end) f)
+                           (sublog s ++ [i]) (wlog s) (elog s))
+                     i (TW k (match k with WCoro | WCallback | WCoroHas => WParked | _ => WFlag end) f)
            else set_thr s i (TW k (WSub true (head l)) f)
        end, if r then 7 else 6)
-  | Some (TW k WFlag f) => (set_thr s i (TW k (WDone (payload s)) f), 8)
+  | Some (TW k WFlag f) =>   (* flag.wait returned; sync() returns and the stack sync_awaiter dies (awaiter.h:320-325) *)
+      (set_thr (mkSt (owner s) (slot s) (payload s) (walk s) (acc s) (thrs s) (winner s) (sublog s) (wlog s) (elog s ++ [EFree i]))
+               i (TW k (WDone (payload s)) f), 8)
   | Some (TW k WParked f) => (s, 0)
   | Some (TW k (WDone _) f) => (s, 0)
   | None => (s, 0)
@@ -189,32 +223,44 @@ Definition decode_thr (l : list Z) : list thr :=
   | [1; 1; e] => [TR (KExc e) RClaim]
   | [1; 2; _] => [TR KDrop RClaim]
   | [1; 3; _] => [TR KMove RClaim]
+  | [1; 4; v] => [TR (KAsyncV v) RClaim]
+  | [1; 5; e] => [TR (KAsyncE e) RClaim]
   | [2; 0] => [TW WCoro WReady false]
   | [2; 1] => [TW WBlock WReady false]
   | [2; 2] => [TW WCallback WReady false]
   | [2; 3] => [TW WHasValue WPre false]
+  | [2; 4] => [TW WCoroHas WReady false]
   | _ => []
   end.
 Definition decode_sched (l : list Z) : list Z := match l with 9 :: r => r | _ => [] end.
 
 Definition init (ops : list (list Z)) : st :=
-  mkSt true (SChain []) ONone [] [] (flat_map decode_thr ops ++ [TR KDtor RXWait]) None [] [].
+  mkSt true (SChain []) ONone [] [] (flat_map decode_thr ops ++ [TR KDtor RXWait]) None [] [] [].
 
 Definition okind (isvoid : bool) (o : outcome) : list Z :=
   match o with ONone => [0; 0] | OVal v => [1; if isvoid then 0 else v] | OExc e => [2; e] end.
 Definition has_val (o : outcome) : bool := match o with ONone => false | _ => true end.
 
-Definition thr_obs (isvoid : bool) (i : nat) (t : thr) : list Z :=
+(* waiter line: tid 2 done kind datum runs parked  (parked = the subscription succeeded, i.e. the waiter really suspended) *)
+Definition thr_obs (isvoid : bool) (sub : list nat) (i : nat) (t : thr) : list Z :=
+  let pk := b2z (existsb (Nat.eqb i) sub) in
   match t with
   | TR _ (RDone r) => [Z.of_nat i; 1; b2z r]
   | TR _ _ => [Z.of_nat i; 1; -1]
-  | TW WHasValue (WDone o) _ => [Z.of_nat i; 2; 1; 4; b2z (has_val o); 1]
-  | TW _ (WDone o) _ => Z.of_nat i :: 2 :: 1 :: okind isvoid o ++ [1]
-  | TW _ _ _ => [Z.of_nat i; 2; 0; 0; 0; 0]
+  | TW WHasValue (WDone o) _ => [Z.of_nat i; 2; 1; 4; b2z (has_val o); 1; pk]
+  | TW WCoroHas (WDone o) _ => [Z.of_nat i; 2; 1; 4; b2z (has_val o); 1; pk]
+  | TW _ (WDone o) _ => Z.of_nat i :: 2 :: 1 :: okind isvoid o ++ [1; pk]
+  | TW _ _ _ => [Z.of_nat i; 2; 0; 0; 0; 0; pk]
   end.
 
-Fixpoint thr_obs_all (isvoid : bool) (l : list thr) (i : nat) : list (list Z) :=
-  match l with [] => [] | t :: r => thr_obs isvoid i t :: thr_obs_all isvoid r (S i) end.
+Fixpoint thr_obs_all (isvoid : bool) (sub : list nat) (l : list thr) (i : nat) : list (list Z) :=
+  match l with [] => [] | t :: r => thr_obs isvoid sub i t :: thr_obs_all isvoid sub r (S i) end.
+
+(* one line per destroyed async frame: 11 tid ready-at-destruction 0 *)
+Definition frame_obs (s : st) : list (list Z) :=
+  flat_map (fun e => match e with
+                     | EFrame b => [[11; Z.of_nat (match winner s with Some i => i | None => 0%nat end); b2z b; 0]]
+                     | _ => [] end) (elog s).
 
 Definition unfinished (t : thr) : bool :=
   match t with
@@ -236,16 +282,19 @@ Definition cell_run (isvoid : bool) (ops : list (list Z)) : list (list Z) :=
   let '(s, tr) := run_sched (length sched + 2000) s0 sched [] in
   map (fun p => [Z.of_nat (fst p); snd p]) tr
   ++ (match stuck_list (thrs s) 0 with [] => [] | l => [777 :: l] end)
-  ++ thr_obs_all isvoid (thrs s) 0 ++ [final_obs isvoid s; [10; 0; 0]].
+  ++ thr_obs_all isvoid (sublog s) (thrs s) 0 ++ frame_obs s ++ [final_obs isvoid s; [10; 0; 0]].
 
 (* ---------- decidable form of C01 + C02 on an observed result block ---------- *)
 (* expected final outcome given which declared resolver (by tid) reported success *)
 Definition decl_outcome (isvoid : bool) (t : thr) : list Z :=
   match t with
   | TR (KVal v) _ => [1; if isvoid then 0 else v]
+  | TR (KAsyncV v) _ => [1; if isvoid then 0 else v]
   | TR (KExc e) _ => [2; e]
+  | TR (KAsyncE e) _ => [2; e]
   | _ => [0; 0]
   end.
+Definition decl_async (t : thr) : bool := match t with TR k _ => is_async k | _ => false end.
 
 Definition is_trace_line (l : list Z) : bool := match l with [_; _] => true | _ => false end.
 
@@ -259,25 +308,67 @@ Fixpoint winners (decl : list thr) (res : list (list Z)) : list nat :=
 Definition list_eqb (a b : list Z) : bool :=
   Nat.eqb (length a) (length b) && forallb (fun p => Z.eqb (fst p) (snd p)) (combine a b).
 
+(* C02 per waiter: it finished (done = 1), its continuation ran exactly once (runs = 1: released exactly once, or
+   refused / found ready and went on by itself), and what it read is the value the winner wrote *)
 Definition waiter_ok (exp : list Z) (l : list Z) : bool :=
   match l with
-  | [_; 2; 1; 4; b; 1] => Z.eqb b (match exp with 0 :: _ => 0 | _ => 1 end)
-  | [_; 2; 1; k; d; 1] => list_eqb [k; d] exp
-  | [_; 2; _; _; _; _] => false
+  | [_; 2; 1; 4; b; 1; _] => Z.eqb b (match exp with 0 :: _ => 0 | _ => 1 end)
+  | [_; 2; 1; k; d; 1; _] => list_eqb [k; d] exp
+  | [_; 2; _; _; _; _; _] => false
   | _ => true
   end.
+Definition is_frame_line (l : list Z) : bool := match l with [11; _; _; _] => true | _ => false end.
 
 Definition cell_oracle (isvoid : bool) (ops obs : list (list Z)) : bool :=
   let decl := thrs (init ops) in
   let res := filter (fun l => negb (is_trace_line l)) obs in
   match winners decl res with
   | [w] =>
-      let exp := match nth_error decl w with Some t => decl_outcome isvoid t | None => [0; 0] end in
+      let wt := nth_error decl w in
+      let exp := match wt with Some t => decl_outcome isvoid t | None => [0; 0] end in
+      let asy := match wt with Some t => decl_async t | None => false end in
       forallb (waiter_ok exp) res
       && existsb (fun l => list_eqb l (9 :: 1 :: exp)) res
+      (* no deadlock line: no waiter (or resolver) is left suspended *)
       && negb (existsb (fun l => match l with 777 :: _ => true | _ => false end) res)
       && existsb (fun l => list_eqb l [10; 0; 0]) res
-      && Nat.eqb (length (filter (fun l => match l with [_; 1; _] => true | [_; 2; _; _; _; _] => true | _ => false end) res))
+      && Nat.eqb (length (filter (fun l => match l with [_; 1; _] => true | [_; 2; _; _; _; _; _] => true | _ => false end) res))
                  (length decl)
+      (* an async winner destroyed its frame exactly once, after the future became ready; nobody else did *)
+      && list_eqb (concat (filter is_frame_line res)) (if asy then [11; Z.of_nat w; 1; 0] else [])
   | _ => false
   end.
+
+(* ---------- exhaustive schedule enumeration (used by the generator of the thorough tier) ---------- *)
+(* All maximal schedules of a configuration, as lists of choices (choice j = the j-th enabled thread).
+   One reduction: once some resolver has taken the owner pointer, the two steps of the shared promise's destructor
+   thread (index dl: "xwait", then "dtor" finding _owner == nullptr) change nothing but its own pc; such a step is
+   taken only when no other thread is enabled.  Every other interleaving is enumerated. *)
+Fixpoint enum_sched (fuel : nat) (s : st) (dl : nat) : list (list Z) :=
+  match fuel with
+  | O => [[]]
+  | S f =>
+      let en := all_enabled s in
+      match en with
+      | [] => [[]]
+      | _ =>
+          let ok := fun i => negb (Nat.eqb i dl && negb (owner s) && Nat.ltb 1 (length en)) in
+          flat_map (fun j => let i := nth j en 0%nat in
+                             if ok i then map (cons (Z.of_nat j)) (enum_sched f (fst (tstep s i)) dl) else [])
+                   (seq 0 (length en))
+      end
+  end.
+
+Definition cell_enum (ops : list (list Z)) : list (list Z) :=
+  let s0 := init ops in
+  map (cons 9) (enum_sched 200 s0 (length (thrs s0) - 1)).
+
+(* ---------- real-thread stress engine (harness/stress_cell.cpp) ---------- *)
+(* The harness runs op [30; trials; wkind1; wkind2; rkind; jitter] under uncontrolled threads and only counts
+   [20; lost; dup; wrong; early].  By c02_no_lost_wakeup / c02_at_most_once / c02_not_early every schedule of the model
+   ends with all four counters zero, so that is the model's prediction for every such op; the oracle is the
+   property itself: no waiter lost, none released twice, none read a wrong or a not-ready result. *)
+Definition stress_run (ops : list (list Z)) : list (list Z) :=
+  flat_map (fun op => match op with [30; _; _; _; _; _] => [[20; 0; 0; 0; 0]] | _ => [] end) ops.
+Definition stress_oracle (ops obs : list (list Z)) : bool :=
+  Nat.eqb (length obs) (length (stress_run ops)) && forallb (fun l => list_eqb l [20; 0; 0; 0; 0]) obs.
